@@ -354,7 +354,13 @@ def run_multi(pid, parts, tier, seed, replay=None):
                                             "oracle_violations", "theorems", "rule")}}
             continue
         m = merged["coverage"]
-        for k in ("obligations", "discharged", "evaluations", "corpus_cases", "distinct_nontrivial",
+        if getattr(part, "prop_file", None) != getattr(parts[0], "prop_file", None):
+            for k in ("obligations", "discharged"):
+                m[k] = m.get(k, 0) + cov.get(k, 0)
+        else:
+            # the parts share one property file: its theorems count once
+            m["discharged"] = min(m.get("discharged", 0), cov.get("discharged", 0))
+        for k in ("evaluations", "corpus_cases", "distinct_nontrivial",
                   "traces_validated_against_impl", "disagreements", "oracle_violations", "harness_aborts"):
             m[k] = m.get(k, 0) + cov.get(k, 0)
         for k in ("trusted_base", "theorems", "samples", "known_findings_seen", "notes"):
